@@ -19,10 +19,22 @@ pub struct Case {
     pub norm: bool,
     pub threads: usize,
     pub mem: Mem,
+    /// one more record, giant (counts beyond 2^16 / 2^24)
+    #[serde(default)]
+    pub giant: Option<gen::Giant>,
+    /// run the built executable (comp cgr -k K -v S [-c]) instead of the library
+    #[serde(default)]
+    pub via_cli: bool,
 }
 
-pub fn check_case(c: &Case) -> Verdict {
+pub fn check_case(c0: &Case) -> Verdict {
     let mut v = Verdict::new();
+    let mut recs = c0.recs.clone();
+    if let Some(g) = &c0.giant {
+        recs.push(Rec { id: "giant".into(), desc: None, seq: crate::util::Bytes(g.expand()) });
+        v.class(g.label());
+    }
+    let c = &Case { recs, giant: None, ..c0.clone() };
     let rt = rank_table(c.k);
     let dir = crate::scratch_dir();
     let input = io::write_input(dir.path(), "in", &c.recs, &c.cont);
@@ -33,13 +45,31 @@ pub fn check_case(c: &Case) -> Verdict {
     v.class(format!("k={}", c.k));
     v.class(if c.norm { "norm" } else { "counts" });
     v.class(match c.s { 1 => "S=1", 2..=16 => "S<=16", 17..=1024 => "S<=1024", _ => "S>1024" });
-    let r = guarded(|| {
-        let mut cc = OligoCgrComputer::new(io::path_str(&input), io::path_str(&out), c.k, c.s as usize);
-        cc.set_threads(c.threads);
-        cc.set_norm(c.norm);
-        cc.verif_set_max_memory(mem);
-        cc.vectorise()
-    });
+    v.class(if c.via_cli { "via-executable" } else { "via-library" });
+    let r = if c.via_cli {
+        let mut args = crate::cli::sv(&["comp", "cgr", "-i", &io::path_str(&input), "-o", &io::path_str(&out), "-k", &c.k.to_string(), "-v", &c.s.to_string(), "-t", &c.threads.to_string()]);
+        if !c.norm {
+            args.push("-c".into());
+        }
+        let r = crate::cli::run_cli(&args, None, 120);
+        if r.timed_out {
+            v.class("cli-timeout");
+            return v;
+        }
+        if !r.ok() || r.panicked() {
+            Err(format!("{:?}: exit {:?} signal {:?} stderr {}", args, r.code, r.signal, crate::util::trunc(&r.stderr, 400)))
+        } else {
+            Ok(Ok(()))
+        }
+    } else {
+        guarded(|| {
+            let mut cc = OligoCgrComputer::new(io::path_str(&input), io::path_str(&out), c.k, c.s as usize);
+            cc.set_threads(c.threads);
+            cc.set_norm(c.norm);
+            cc.verif_set_max_memory(mem);
+            cc.vectorise()
+        })
+    };
     match r {
         Err(p) => {
             v.fail(crate::engine::panic_sig(&p), format!("k-mer cgr panicked: {}", p));
@@ -141,7 +171,7 @@ impl Leg for Runs {
         (prop_oneof![8 => 1usize..=6, 1 => Just(7usize)], gen::square_strategy(), any::<bool>(), gen::threads_strategy(), prop::sample::select(vec![Mem::OneByte, Mem::ThreeRecords, Mem::Half, Mem::Max]))
             .prop_flat_map(move |(k, s, norm, threads, mem)| {
                 let p = RecParams { max_records: if k >= 7 { 3 } else if k >= 5 { 8 } else { tier.pick(20, 80) }, scale: k, max_len: tier.pick(150, 400), degenerate_w: 2, bounds: [k, 0, 0], nuc_only: false };
-                gen::records_in_container(p).prop_map(move |(recs, cont)| Case { recs, cont, k, s, norm, threads, mem })
+                gen::records_in_container(p).prop_map(move |(recs, cont)| Case { recs, cont, k, s, norm, threads, mem, giant: None, via_cli: false })
             })
             .boxed()
     }
@@ -150,14 +180,73 @@ impl Leg for Runs {
     }
 }
 
+/// the same check through the executable: k 3..=7, square sizes at the boundaries 1, 2, k*k, 2^20 and anywhere
+pub struct Cli;
+impl Leg for Cli {
+    type Case = Case;
+    const NAME: &'static str = "cli";
+    fn strategy(tier: Tier) -> BoxedStrategy<Case> {
+        (3usize..=7, any::<bool>(), gen::threads_strategy())
+            .prop_flat_map(move |(k, norm, threads)| {
+                let s = prop_oneof![3 => Just(1u64), 1 => Just(2u64), 1 => Just(3u64), 2 => Just((k * k) as u64), 1 => Just(1u64 << 20), 4 => 1u64..=(1u64 << 20), 2 => 1u64..=64];
+                let p = RecParams { max_records: if k >= 7 { 3 } else if k >= 5 { 6 } else { tier.pick(12, 40) }, scale: k, max_len: tier.pick(150, 400), degenerate_w: 2, bounds: [k, 0, 0], nuc_only: false };
+                (gen::records_in_container(p), s).prop_map(move |((recs, cont), s)| Case { recs, cont, k, s, norm, threads, mem: Mem::Max, giant: None, via_cli: true })
+            })
+            .boxed()
+    }
+    fn check(c: &Case) -> Verdict {
+        check_case(c)
+    }
+}
+
+/// one giant record among a few small ones: counts beyond 2^16 and (one case in three) beyond 2^24
+pub struct GiantRecs;
+impl Leg for GiantRecs {
+    type Case = Case;
+    const NAME: &'static str = "giant-records";
+    fn strategy(tier: Tier) -> BoxedStrategy<Case> {
+        let _ = tier;
+        (prop_oneof![3 => Just(1usize), 3 => 2usize..=4, 1 => 5usize..=7], gen::square_strategy(), prop::bool::weighted(0.4), gen::threads_strategy(), prop::bool::weighted(0.25))
+            .prop_flat_map(move |(k, s, norm, threads, via_cli)| {
+                let k = if via_cli { k.max(3) } else { k };
+                let p = RecParams { max_records: 3, scale: k, max_len: 100, degenerate_w: 1, bounds: [k, 0, 0], nuc_only: false };
+                let giant = prop_oneof![
+                    2 => gen::giant(60_000, 3_400_000, b"ACGTN".to_vec()),
+                    1 => (prop::sample::select(b"ACGT".to_vec()), ((1usize << 24) + 8)..=((1usize << 24) + 3_000), proptest::collection::vec((any::<u32>(), prop::sample::select(b"ACGTN".to_vec())), 0..=2))
+                        .prop_map(|(b, len, edits)| gen::Giant { unit: crate::util::Bytes(vec![b]), len, edits, rand_seed: None }),
+                ];
+                (gen::records(p), giant).prop_map(move |(recs, giant)| Case { recs, cont: Container::plain_fasta(), k, s, norm, threads, mem: Mem::Max, giant: Some(giant), via_cli })
+            })
+            .boxed()
+    }
+    fn check(c: &Case) -> Verdict {
+        let mut v = check_case(c);
+        if let Some(g) = &c.giant {
+            let rt = rank_table(c.k);
+            let (counts, _) = model::oligo_counts(&g.expand(), &rt);
+            let top = counts.iter().copied().max().unwrap_or(0);
+            v.class_if(top > (1 << 16), "count>2^16");
+            v.class_if(top > (1 << 24), "count>2^24");
+        }
+        v
+    }
+}
+
 pub fn run(ctx: &mut Ctx) {
+    let n = ctx.share(ctx.tier.pick(48, 800));
+    ctx.run_leg::<GiantRecs>(n, true, 8);
     let n = ctx.share(ctx.tier.pick(2_400, 40_000));
     ctx.run_leg::<Runs>(n, true, 200);
+    let n = ctx.share(ctx.tier.pick(1_200, 20_000));
+    ctx.run_leg::<Cli>(n, false, 200);
+    super::timeouts_inconclusive(ctx);
 }
 
 pub fn replay(leg: &str, case: &serde_json::Value) -> Option<Result<Verdict, String>> {
     match leg {
         "runs" => Some(crate::engine::replay_leg::<Runs>(case)),
+        "cli" => Some(crate::engine::replay_leg::<Cli>(case)),
+        "giant-records" => Some(crate::engine::replay_leg::<GiantRecs>(case)),
         _ => None,
     }
 }
